@@ -1,9 +1,362 @@
-//! C03 — not built yet.
-use crate::rt::*;
+//! C03 — CKKS evaluation is correct within worst-case error; scale bookkeeping is exact;
+//! level / scale mismatches and out-of-range scales are refused.
+//! Shadow: complex slot vector + tracked worst-case slot error E, magnitude M, coefficient
+//! magnitude C and the exactly expected scale (same f64 operations the property implies).
 
-pub fn run(_cfg: &Cfg, _rep: &mut Report) -> PropMeta {
-    PropMeta { id: "C03", level: "exploration", rule: "not built", assumptions: vec![], exhaustive: false, floor: 1 }
+use crate::he::*;
+use crate::prog::{dirty, Form, FORMS};
+use crate::props::c06::{same_ct, valid_ct};
+use crate::rt::*;
+use heathcliff::*;
+use serde_json::json;
+
+const P: &str = "C03";
+
+#[derive(Clone)]
+pub struct CElem {
+    pub ct: Ciphertext,
+    pub v: Vec<C64>,
+    pub scale: f64,
+    /// worst-case slot error |decoded - v|
+    pub e: f64,
+    /// max |v_i|
+    pub m: f64,
+    /// worst-case coefficient magnitude of the phase
+    pub c: f64,
+    pub level: usize,
+    pub origin: String,
 }
 
-/// CKKS part of the C06 monitors (filled in with the CKKS program machine).
-pub fn c06_hook(_cfg: &Cfg, _rep: &mut Report) {}
+#[derive(Clone, Debug)]
+pub enum COp {
+    Negate(usize), Add(usize, usize), Sub(usize, usize), AddMany(Vec<usize>), Multiply(usize, usize), Square(usize),
+    /// plaintext values + scale
+    AddPlain(usize, Vec<C64>), SubPlain(usize, Vec<C64>), MultiplyPlain(usize, Vec<C64>, f64),
+    Relinearize(usize), RescaleNext(usize), ModSwitchNext(usize),
+}
+impl COp {
+    pub fn name(&self) -> &'static str { match self { COp::Negate(_) => "negate", COp::Add(..) => "add", COp::Sub(..) => "sub", COp::AddMany(_) => "add_many", COp::Multiply(..) => "multiply", COp::Square(_) => "square",
+        COp::AddPlain(..) => "add_plain", COp::SubPlain(..) => "sub_plain", COp::MultiplyPlain(..) => "multiply_plain", COp::Relinearize(_) => "relinearize", COp::RescaleNext(_) => "rescale_to_next", COp::ModSwitchNext(_) => "mod_switch_to_next" } }
+    pub fn operands(&self) -> Vec<usize> { match self { COp::Negate(a) | COp::Square(a) | COp::AddPlain(a, _) | COp::SubPlain(a, _) | COp::MultiplyPlain(a, _, _) | COp::Relinearize(a) | COp::RescaleNext(a) | COp::ModSwitchNext(a) => vec![*a],
+        COp::Add(a, b) | COp::Sub(a, b) | COp::Multiply(a, b) => vec![*a, *b], COp::AddMany(v) => v.clone() } }
+    fn brief(&self) -> String { match self { COp::AddPlain(a, _) => format!("add_plain({})", a), COp::SubPlain(a, _) => format!("sub_plain({})", a), COp::MultiplyPlain(a, _, s) => format!("multiply_plain({}, scale 2^{:.1})", a, s.log2()), o => format!("{:?}", o) } }
+}
+
+pub struct CkksMachine<'a> { pub kit: &'a Kit, pub oracle: Option<Oracle>, pub rlk: Option<RelinKeys>, pub pool: Vec<CElem> }
+
+fn geo(n: usize, terms: usize) -> f64 { (0..terms).map(|j| (n as f64).powi(j as i32)).sum() }
+fn vmax(v: &[C64]) -> f64 { v.iter().map(|x| x.norm()).fold(0.0, f64::max) }
+fn are_close(a: f64, b: f64) -> bool { let s = a.max(b).max(1.0); (a - b).abs() < f64::EPSILON * s }
+
+impl<'a> CkksMachine<'a> {
+    pub fn new(kit: &'a Kit, with_oracle: bool) -> Self {
+        let oracle = if with_oracle { Oracle::new(&kit.ctx, &kit.sk).ok() } else { None };
+        let rlk = if kit.has_keyswitching() { lib(|| kit.keygen.create_relin_keys(false)).ok() } else { None };
+        CkksMachine { kit, oracle, rlk, pool: vec![] }
+    }
+    pub fn n(&self) -> usize { self.kit.n() }
+    pub fn bits(&self, level: usize) -> usize { self.kit.levels[level].total_coeff_modulus_bit_count() }
+    pub fn log2q(&self, level: usize) -> f64 { self.kit.level_qs(level).iter().map(|&q| (q as f64).log2()).sum() }
+    /// the library's documented scale rule: a scale fits a level iff 0 < scale and floor(log2 scale) < bit count of the level's modulus
+    pub fn scale_fits(&self, scale: f64, level: usize) -> bool { !(scale <= 0.0 || scale.log2() as isize >= self.bits(level) as isize) }
+
+    /// can the encoder represent these values at this scale and level (its own documented refusals: scale bound, magnitude bound)?
+    pub fn encodable(&self, v: &[C64], scale: f64, level: usize) -> bool {
+        let bits = self.bits(level) as f64;
+        scale > 0.0 && scale.log2() + 2.0 < bits && (vmax(v) * scale + 1.0).log2() + 2.0 < bits
+    }
+
+    fn enc_err(&self, mag: f64, scale: f64) -> f64 { let n = self.n() as f64; n * 0.5 / scale + n * n * 2f64.powi(-45) * (mag + 1.0) }
+
+    pub fn fresh(&mut self, values: &[C64], scale: f64, level: usize, pk: bool) -> Result<usize, Panicked> {
+        let enc = self.kit.ckks.as_ref().unwrap();
+        let id = *self.kit.levels[level].parms_id();
+        let ct = lib(|| { let p = enc.encode_c64_array_new(values, Some(id), scale); if pk { self.kit.enc.encrypt_new(&p) } else { let mut c = Ciphertext::new(); self.kit.enc.encrypt_symmetric(&p, &mut c); c } })?;
+        let n = self.n();
+        let mut v = values.to_vec(); v.resize(n / 2, C64::new(0.0, 0.0));
+        let m = vmax(&v);
+        let b = fresh_noise_bound(n, pk) + modswitch_bound(n) + 1.0;
+        let el = CElem { ct, v, scale, e: (n as f64) * b / scale + self.enc_err(m, scale), m, c: scale * m + b + 1.0, level, origin: "fresh".into() };
+        self.pool.push(el);
+        Ok(self.pool.len() - 1)
+    }
+
+    fn ks_noise(&self, level: usize) -> f64 {
+        let n = self.n() as f64; let key_qs = self.kit.key_qs(); let p = *key_qs.last().unwrap() as f64;
+        let sumq: f64 = self.kit.level_qs(level).iter().map(|&q| q as f64).sum();
+        ERR_MAX * n * sumq / p + (n + 1.0) + 2.0
+    }
+
+    /// typing: Ok(true) = the library must accept, Ok(false) = the library must refuse (the property's refusal clause), Err = not a call we make
+    pub fn expect(&self, op: &COp) -> Result<bool, &'static str> {
+        let el = |i: &usize| &self.pool[*i];
+        match op {
+            COp::Negate(_) => Ok(true),
+            COp::Add(a, b) | COp::Sub(a, b) => Ok(el(a).level == el(b).level && are_close(el(a).ct.scale(), el(b).ct.scale())),
+            COp::AddMany(v) => Ok(v.windows(2).all(|w| el(&w[0]).level == el(&w[1]).level) && v.iter().all(|i| are_close(el(&v[0]).ct.scale(), el(i).ct.scale()))),
+            COp::Multiply(a, b) => { if el(a).ct.size() + el(b).ct.size() - 1 > 16 { return Err("size"); } if el(a).level != el(b).level { return Ok(false); } Ok(self.scale_fits(el(a).ct.scale() * el(b).ct.scale(), el(a).level)) }
+            COp::Square(a) => { if 2 * el(a).ct.size() - 1 > 16 { return Err("size"); } Ok(self.scale_fits(el(a).ct.scale() * el(a).ct.scale(), el(a).level)) }
+            COp::AddPlain(a, v) | COp::SubPlain(a, v) => if self.encodable(v, el(a).ct.scale(), el(a).level) { Ok(true) } else { Err("plaintext not encodable at this level") },
+            COp::MultiplyPlain(a, v, s) => if self.encodable(v, *s, el(a).level) { Ok(self.scale_fits(el(a).ct.scale() * *s, el(a).level)) } else { Err("plaintext not encodable at this level") },
+            COp::Relinearize(a) => if self.rlk.is_none() || el(a).ct.size() != 3 { Err("n/a") } else { Ok(true) },
+            COp::RescaleNext(a) => Ok(el(a).level + 1 < self.kit.levels.len()),
+            COp::ModSwitchNext(a) => Ok(el(a).level + 1 < self.kit.levels.len() && self.scale_fits(el(a).ct.scale(), el(a).level + 1)),
+        }
+    }
+
+    fn plain(&self, values: &[C64], scale: f64, ct: &Ciphertext) -> Plaintext { self.kit.ckks.as_ref().unwrap().encode_c64_array_new(values, Some(*ct.parms_id()), scale) }
+
+    pub fn execute(&self, op: &COp, form: Form) -> Result<Ciphertext, Panicked> {
+        let ev = &self.kit.eval; let kit = self.kit;
+        let c = |i: &usize| &self.pool[*i].ct;
+        lib(|| {
+            macro_rules! un { ($a:expr, $inpl:ident, $dest:ident, $new:ident) => { match form {
+                Form::Inplace => { let mut x = c($a).clone(); ev.$inpl(&mut x); x } Form::Dest => { let mut d = dirty(kit); ev.$dest(c($a), &mut d); d } Form::New => ev.$new(c($a)) } } }
+            macro_rules! bin { ($a:expr, $b:expr, $inpl:ident, $dest:ident, $new:ident) => { match form {
+                Form::Inplace => { let mut x = c($a).clone(); ev.$inpl(&mut x, c($b)); x } Form::Dest => { let mut d = dirty(kit); ev.$dest(c($a), c($b), &mut d); d } Form::New => ev.$new(c($a), c($b)) } } }
+            macro_rules! pl { ($a:expr, $p:expr, $inpl:ident, $dest:ident, $new:ident) => { match form {
+                Form::Inplace => { let mut x = c($a).clone(); ev.$inpl(&mut x, $p); x } Form::Dest => { let mut d = dirty(kit); ev.$dest(c($a), $p, &mut d); d } Form::New => ev.$new(c($a), $p) } } }
+            match op {
+                COp::Negate(a) => un!(a, negate_inplace, negate, negate_new),
+                COp::Add(a, b) => bin!(a, b, add_inplace, add, add_new),
+                COp::Sub(a, b) => bin!(a, b, sub_inplace, sub, sub_new),
+                COp::AddMany(v) => { let ops: Vec<Ciphertext> = v.iter().map(|i| self.pool[*i].ct.clone()).collect(); match form { Form::New => ev.add_many_new(&ops), _ => { let mut d = dirty(kit); ev.add_many(&ops, &mut d); d } } }
+                COp::Multiply(a, b) => bin!(a, b, multiply_inplace, multiply, multiply_new),
+                COp::Square(a) => un!(a, square_inplace, square, square_new),
+                COp::AddPlain(a, v) => { let p = self.plain(v, c(a).scale(), c(a)); pl!(a, &p, add_plain_inplace, add_plain, add_plain_new) }
+                COp::SubPlain(a, v) => { let p = self.plain(v, c(a).scale(), c(a)); pl!(a, &p, sub_plain_inplace, sub_plain, sub_plain_new) }
+                COp::MultiplyPlain(a, v, s) => { let p = self.plain(v, *s, c(a)); pl!(a, &p, multiply_plain_inplace, multiply_plain, multiply_plain_new) }
+                COp::Relinearize(a) => { let rk = self.rlk.as_ref().unwrap(); pl!(a, rk, relinearize_inplace, relinearize, relinearize_new) }
+                COp::RescaleNext(a) => un!(a, rescale_to_next_inplace, rescale_to_next, rescale_to_next_new),
+                COp::ModSwitchNext(a) => un!(a, mod_switch_to_next_inplace, mod_switch_to_next, mod_switch_to_next_new),
+            }
+        })
+    }
+
+    /// shadow element of the result
+    pub fn result(&self, op: &COp, ct: Ciphertext) -> CElem {
+        let n = self.n(); let nf = n as f64;
+        let el = |i: &usize| &self.pool[*i];
+        let ops = op.operands();
+        let a = el(&ops[0]);
+        let pad = |v: &Vec<C64>| { let mut x = v.clone(); x.resize(n / 2, C64::new(0.0, 0.0)); x };
+        let (v, scale, e, m, c, level): (Vec<C64>, f64, f64, f64, f64, usize) = match op {
+            COp::Negate(_) => (a.v.iter().map(|x| -x).collect(), a.scale, a.e, a.m, a.c, a.level),
+            COp::Add(_, b) => { let b = el(b); (a.v.iter().zip(&b.v).map(|(x, y)| x + y).collect(), a.scale, a.e + b.e + a.m.max(b.m) * 2f64.powi(-50), a.m + b.m, a.c + b.c, a.level) }
+            COp::Sub(_, b) => { let b = el(b); (a.v.iter().zip(&b.v).map(|(x, y)| x - y).collect(), a.scale, a.e + b.e + a.m.max(b.m) * 2f64.powi(-50), a.m + b.m, a.c + b.c, a.level) }
+            COp::AddMany(idx) => { let mut v = a.v.clone(); let (mut e, mut m, mut c) = (a.e, a.m, a.c); for i in &idx[1..] { let b = el(i); for (x, y) in v.iter_mut().zip(&b.v) { *x += y; } e += b.e; m += b.m; c += b.c; } (v, a.scale, e * (1.0 + 2f64.powi(-40)), m, c, a.level) }
+            COp::Multiply(_, b) => { let b = el(b); (a.v.iter().zip(&b.v).map(|(x, y)| x * y).collect(), a.scale * b.scale, a.e * b.m + b.e * a.m + a.e * b.e, a.m * b.m, nf * a.c * b.c, a.level) }
+            COp::Square(_) => (a.v.iter().map(|x| x * x).collect(), a.scale * a.scale, 2.0 * a.e * a.m + a.e * a.e, a.m * a.m, nf * a.c * a.c, a.level),
+            COp::AddPlain(_, p) | COp::SubPlain(_, p) => { let p = pad(p); let pm = vmax(&p); let sub = matches!(op, COp::SubPlain(..));
+                (a.v.iter().zip(&p).map(|(x, y)| if sub { x - y } else { x + y }).collect(), a.scale, a.e + self.enc_err(pm, a.ct.scale()), a.m + pm, a.c + a.ct.scale() * pm + 1.0, a.level) }
+            COp::MultiplyPlain(_, p, s) => { let p = pad(p); let pm = vmax(&p); let pe = self.enc_err(pm, *s);
+                (a.v.iter().zip(&p).map(|(x, y)| x * y).collect(), a.scale * *s, a.e * pm + pe * a.m + a.e * pe, a.m * pm, nf * a.c * (*s * pm + 1.0), a.level) }
+            COp::Relinearize(_) => (a.v.clone(), a.scale, a.e + nf * self.ks_noise(a.level) / a.ct.scale(), a.m, a.c + self.ks_noise(a.level), a.level),
+            COp::RescaleNext(_) => { let ql = *self.kit.level_qs(a.level).last().unwrap() as f64; let s2 = a.scale / ql; (a.v.clone(), s2, a.e + nf * (geo(n, a.ct.size()) / 2.0 + 1.0) / s2, a.m, a.c / ql + geo(n, a.ct.size()), a.level + 1) }
+            COp::ModSwitchNext(_) => (a.v.clone(), a.scale, a.e, a.m, a.c, a.level + 1),
+        };
+        CElem { ct, v, scale, e: e * (1.0 + 2f64.powi(-30)) + m * 2f64.powi(-48), m, c, level, origin: op.name().into() }
+    }
+
+    /// is the element's worst-case coefficient magnitude inside its modulus (no wrap-around)?
+    pub fn within(&self, el: &CElem) -> bool { el.c.is_finite() && el.c > 0.0 && el.c.log2() + 2.0 < self.log2q(el.level) }
+
+    pub fn random_values(&self, rng: &mut Rng) -> Vec<C64> {
+        let slots = self.n() / 2;
+        let cnt = match rng.below(3) { 0 => slots, 1 => 1, _ => rng.range(1, slots as u64) as usize };
+        let mag = 2f64.powi(rng.range(0, 14) as i32 - 10);
+        let class = rng.below(5);
+        (0..cnt).map(|_| { let r = mag * (0.25 + 0.75 * rng.f64()); match class { 0 => C64::new(r, 0.0), 1 => C64::new(-r, 0.0), 2 => C64::new(0.0, if rng.bool() { r } else { -r }), 3 => C64::new(r * (2.0 * rng.f64() - 1.0), r * (2.0 * rng.f64() - 1.0)), _ => C64::from_polar(r, rng.f64() * 6.283) } }).collect()
+    }
+
+    pub fn random_op(&self, rng: &mut Rng) -> Option<COp> {
+        for _ in 0..30 {
+            let a = rng.usize_below(self.pool.len());
+            // partner: prefer a compatible one (same level, close scale) most of the time
+            let compat: Vec<usize> = (0..self.pool.len()).filter(|&j| self.pool[j].level == self.pool[a].level && are_close(self.pool[j].ct.scale(), self.pool[a].ct.scale())).collect();
+            let b = if rng.chance(9, 10) { *rng.pick(&compat) } else { rng.usize_below(self.pool.len()) };
+            let same_level: Vec<usize> = (0..self.pool.len()).filter(|&j| self.pool[j].level == self.pool[a].level).collect();
+            let bl = *rng.pick(&same_level);
+            // relinearize whenever a size-3 element is around (otherwise it is rarely applicable)
+            if self.rlk.is_some() && rng.chance(1, 4) { if let Some(j) = (0..self.pool.len()).find(|&j| self.pool[j].ct.size() == 3) { return Some(COp::Relinearize(j)); } }
+            let op = match rng.below(15) {
+                0 => COp::Negate(a), 1 | 2 => COp::Add(a, b), 3 => COp::Sub(a, b),
+                4 => { let k = rng.range(2, 4) as usize; COp::AddMany((0..k).map(|_| *rng.pick(&compat)).collect()) }
+                5 | 6 => COp::Multiply(a, bl), 7 => COp::Square(a),
+                8 => COp::AddPlain(a, self.random_values(rng)), 9 => COp::SubPlain(a, self.random_values(rng)),
+                10 => { let room = (self.bits(self.pool[a].level) as f64 - self.pool[a].ct.scale().log2() - 2.0).max(1.0); let s = 2f64.powf((rng.f64() * room.min(40.0)).floor().max(1.0)); COp::MultiplyPlain(a, self.random_values(rng), s) }
+                11 => COp::Relinearize(a), 12 | 13 => COp::RescaleNext(a), _ => COp::ModSwitchNext(a),
+            };
+            if self.expect(&op).is_ok() { return Some(op); }
+        }
+        None
+    }
+}
+
+pub fn ckks_spec(rng: &mut Rng, ns: &[usize]) -> Option<Spec> {
+    let n = *rng.pick(ns);
+    let k = rng.range(2, 6) as usize;
+    let mut bits: Vec<u32> = (0..k).map(|_| *rng.pick(&[30u32, 30, 35, 40, 40, 45, 50, 60])).collect();
+    if rng.bool() { bits[0] = 60; bits[k - 1] = 60; }
+    let qs = coeff_primes(n, &bits, rng)?;
+    Some(Spec { scheme: SchemeType::CKKS, n, qs, t: 0, special_flag: rng.chance(1, 8), expand: true, family: format!("ckks-{}", bits.iter().map(|b| b.to_string()).collect::<Vec<_>>().join("-")) })
+}
+
+struct Obs<'a> { cfg: &'a Cfg, grp: &'a str, case: u64, prop: &'static str }
+fn viol(o: &Obs, rep: &mut Report, op: &str, class: &str, kind: &str, detail: String, spec: &Spec, trace: &[String]) {
+    rep.violation(&format!("{}|{}|{}|{}", o.prop, op, class, kind), format!("{} ; program: {:?} ; params {}", detail, trace, spec.describe()), replay_json(o.cfg, o.grp, o.case, json!({"params": spec.describe(), "program": trace})));
+}
+
+fn init(m: &mut CkksMachine, rng: &mut Rng, trace: &mut Vec<String>) -> bool {
+    let lq0 = m.log2q(0);
+    // base scale: 2^10 .. about a third of the first level's modulus, so that a few products fit
+    let s = rng.range(10, ((lq0 / 3.0).max(12.0)) as u64) as i32;
+    for i in 0..4 {
+        let v = m.random_values(rng);
+        // one operand with a slightly different (still power-of-two) scale and one at a lower level now and then
+        let scale = if i == 3 && rng.chance(1, 3) { 2f64.powi(s + 1) } else { 2f64.powi(s) };
+        let level = if i == 2 && m.kit.levels.len() > 1 && rng.chance(1, 4) { 1 } else { 0 };
+        if !m.scale_fits(scale * 2.0, level) { continue; }
+        trace.push(format!("fresh(scale 2^{}, level {}, |v|<={:.3e})", scale.log2(), level, vmax(&v)));
+        if m.fresh(&v, scale, level, rng.bool()).is_err() { return false; }
+    }
+    m.pool.len() >= 2
+}
+
+fn programs(cfg: &Cfg, grp: &str, case: u64, rng: &mut Rng, rep: &mut Report, ns: &[usize]) {
+    let Some(spec) = ckks_spec(rng, ns) else { return };
+    let Ok(kit) = Kit::new(&spec) else { rep.count("generator", "rejected"); return; };
+    rep.count("generator", "ok");
+    rep.count("params", &format!("n={}|primes={}|special_flag={}", spec.n, spec.qs.len(), spec.special_flag));
+    let o = Obs { cfg, grp, case, prop: P };
+    let mut m = CkksMachine::new(&kit, spec.n <= 256);
+    let mut trace = vec![];
+    if !init(&mut m, rng, &mut trace) { return; }
+    let enc = kit.ckks.as_ref().unwrap();
+    for _ in 0..rng.range(3, cfg.pick(10, 20)) {
+        let Some(op) = m.random_op(rng) else { break };
+        let form = *rng.pick(&FORMS);
+        let ops = op.operands();
+        let a = &m.pool[ops[0]];
+        trace.push(format!("{}/{:?} L{} size{} scale2^{:.2}", op.brief(), form, a.level, a.ct.size(), a.ct.scale().log2()));
+        let expect_ok = m.expect(&op).unwrap();
+        let cls = format!("size={}", if a.ct.size() == 2 { "2" } else { ">2" });
+        match (m.execute(&op, form), expect_ok) {
+            (Err(_), false) => { rep.count("refusals", &format!("{}|{:?}", op.name(), form)); rep.eval(Some(&format!("refuse|{}|{:?}", op.name(), form))); }
+            (Ok(_), false) => { viol(&o, rep, op.name(), &format!("{:?}", form), "not_refused", "operation on mismatching levels / scales or with an out-of-range resulting scale returned".into(), &spec, &trace); }
+            (Err(p), true) => { viol(&o, rep, op.name(), &cls, "panic", format!("well-typed operation refused: {}", p.0), &spec, &trace); }
+            (Ok(ct), true) => {
+                let el = m.result(&op, ct);
+                // (a) exact scale bookkeeping, level, size
+                let want_size = match &op { COp::Multiply(x, y) => m.pool[*x].ct.size() + m.pool[*y].ct.size() - 1, COp::Square(x) => 2 * m.pool[*x].ct.size() - 1, COp::Relinearize(_) => 2,
+                    COp::Add(x, y) | COp::Sub(x, y) => m.pool[*x].ct.size().max(m.pool[*y].ct.size()), COp::AddMany(v) => v.iter().map(|i| m.pool[*i].ct.size()).max().unwrap(), _ => a.ct.size() };
+                if el.ct.scale().to_bits() != el.scale.to_bits() { viol(&o, rep, op.name(), "scale", "value", format!("recorded scale {:e} != implied scale {:e}", el.ct.scale(), el.scale), &spec, &trace); continue; }
+                if m.kit.level_of(el.ct.parms_id()) != Some(el.level) || el.ct.size() != want_size || !el.ct.is_ntt_form() { viol(&o, rep, op.name(), &cls, "metadata", format!("level {:?} (want {}), size {} (want {})", m.kit.level_of(el.ct.parms_id()), el.level, el.ct.size(), want_size), &spec, &trace); continue; }
+                rep.count("scale_checked", op.name());
+                // (b) values within the worst-case error, while the coefficient magnitude cannot wrap
+                let cell = format!("{}|size{}|L{}", op.name(), el.ct.size().min(9), el.level);
+                if m.within(&el) {
+                    let fp = ckks_fp_tolerance(m.n(), m.kit.level_qs(el.level).len(), el.m + el.e, el.ct.scale());
+                    let tol = el.e + fp;
+                    match lib(|| enc.decode_new(&kit.dec.decrypt_new(&el.ct))) {
+                        Err(p) => viol(&o, rep, op.name(), &format!("{}|decrypt", cls), "panic", p.0, &spec, &trace),
+                        Ok(d) => { let worst = d.iter().zip(&el.v).map(|(x, y)| (x - y).norm()).fold(0.0, f64::max); rep.max("library_error_over_bound", worst / tol);
+                            if !(worst <= tol) { viol(&o, rep, op.name(), &cls, "value", format!("decoded result off by {:e} > worst-case bound {:e} (|v|<={:e})", worst, tol, el.m), &spec, &trace); } }
+                    }
+                    if let Some(or) = &m.oracle {
+                        let z = embed_decode(&or.ckks_coeffs(&kit.ctx, &el.ct));
+                        let worst = z.iter().zip(&el.v).map(|(x, y)| (x - y).norm()).fold(0.0, f64::max);
+                        rep.max("oracle_error_over_bound", worst / (el.e + el.m * 2f64.powi(-40)));
+                        if !(worst <= el.e + (el.m + 1.0) * 2f64.powi(-38)) { viol(&o, rep, op.name(), &format!("{}|oracle", cls), "value", format!("exact decryption off by {:e} > worst-case bound {:e}", worst, el.e), &spec, &trace); }
+                    }
+                    rep.count("value_cells", &cell);
+                    rep.eval(Some(&cell));
+                    m.pool.push(el);
+                } else { rep.out_of_precondition += 1; rep.eval(None); }
+            }
+        }
+        if m.pool.len() > 20 { break; }
+    }
+    if case < 2 { rep.sample(json!({"group": grp, "case": case, "params": spec.describe(), "program": trace, "pool": m.pool.iter().map(|e| json!({"origin": e.origin, "level": e.level, "size": e.ct.size(), "scale_log2": e.ct.scale().log2(), "error_bound": e.e, "max_abs": e.m})).collect::<Vec<_>>()})); }
+}
+
+/// dedicated refusal scenarios (levels, scales, scale out of bounds), all three forms
+fn refusals(cfg: &Cfg, grp: &str, case: u64, rng: &mut Rng, rep: &mut Report) {
+    let Some(spec) = ckks_spec(rng, &[4, 8, 16]) else { return };
+    let Ok(kit) = Kit::new(&spec) else { return };
+    if kit.levels.len() < 2 { return; }
+    let o = Obs { cfg, grp, case, prop: P };
+    let mut m = CkksMachine::new(&kit, false);
+    let trace = vec![];
+    let v = m.random_values(rng);
+    let s0 = 2f64.powi(20);
+    let (Ok(a), Ok(b)) = (m.fresh(&v, s0, 0, true), m.fresh(&v, s0, 1, false)) else { return };
+    // scale mismatches: relative 2^-30, factor 2, and a non-power-of-two scale produced by rescaling
+    let Ok(c) = m.fresh(&v, s0 * (1.0 + 2f64.powi(-30)), 0, true) else { return };
+    let Ok(d) = m.fresh(&v, s0 * 2.0, 0, true) else { return };
+    // huge scale so that products / switches overflow the modulus
+    let big = 2f64.powf(m.bits(0) as f64 - 3.0);
+    let Ok(e) = m.fresh(&[C64::new(1.0, 0.0)], big, 0, true) else { return };
+    let mut cases: Vec<(&'static str, COp)> = vec![
+        ("levels_differ", COp::Add(a, b)), ("levels_differ", COp::Sub(b, a)), ("levels_differ", COp::Multiply(a, b)),
+        ("scales_differ_2^-30", COp::Add(a, c)), ("scales_differ_2^-30", COp::Sub(c, a)), ("scales_differ_x2", COp::Add(a, d)), ("scales_differ_x2", COp::AddMany(vec![a, a, d])),
+        ("product_scale_too_large", COp::Multiply(e, a)), ("product_scale_too_large", COp::Square(e)), ("product_scale_too_large", COp::MultiplyPlain(e, vec![C64::new(1.0, 0.0)], s0)),
+    ];
+    let small_next = m.bits(1);
+    if (big.log2() as usize) >= small_next { cases.push(("scale_too_large_for_next_level", COp::ModSwitchNext(e))); }
+    for (why, op) in cases {
+        if m.expect(&op) != Ok(false) { rep.harness_errors.push(format!("refusal scenario {} is not a refusal case by the documented rule", why)); continue; }
+        for form in FORMS {
+            rep.count("refusals", &format!("{}|{}|{:?}", why, op.name(), form));
+            rep.eval(Some(&format!("refuse|{}|{}|{:?}", why, op.name(), form)));
+            if m.execute(&op, form).is_ok() { viol(&o, rep, op.name(), &format!("{}|{:?}", why, form), "not_refused", format!("{}: the operation returned instead of refusing", why), &spec, &trace); }
+        }
+    }
+}
+
+/// C06 monitors on CKKS programs: three API forms bit-identical, operands untouched, results valid
+pub fn c06_hook(cfg: &Cfg, rep: &mut Report) {
+    run_cases(cfg, "ckks_variants", cfg.n(4000, 60000) as u64, rep, |case, rng, rep| {
+        let Some(spec) = ckks_spec(rng, &[4, 8, 16, 32]) else { return };
+        let Ok(kit) = Kit::new(&spec) else { return };
+        let o = Obs { cfg, grp: "ckks_variants", case, prop: "C06" };
+        let mut m = CkksMachine::new(&kit, false);
+        let mut trace = vec![];
+        if !init(&mut m, rng, &mut trace) { return; }
+        for _ in 0..rng.range(3, 10) {
+            let Some(op) = m.random_op(rng) else { break };
+            if m.expect(&op) != Ok(true) { continue; }
+            trace.push(op.brief());
+            let ops = op.operands();
+            let snap: Vec<Ciphertext> = ops.iter().map(|i| m.pool[*i].ct.clone()).collect();
+            let rs: Vec<Result<Ciphertext, Panicked>> = FORMS.iter().map(|f| m.execute(&op, *f)).collect();
+            for (k, i) in ops.iter().enumerate() { if !same_ct(&snap[k], &m.pool[*i].ct) { viol(&o, rep, op.name(), "CKKS", "operand_modified", "a read-only operand changed".into(), &spec, &trace); } }
+            let oks: Vec<&Ciphertext> = rs.iter().filter_map(|r| r.as_ref().ok()).collect();
+            if oks.len() != 3 { if !oks.is_empty() { viol(&o, rep, op.name(), "CKKS", "variants_disagree", "forms disagree on refusing".into(), &spec, &trace); } continue; }
+            let cell = format!("CKKS|{}|size{}|L{}", op.name(), m.pool[ops[0]].ct.size().min(9), m.pool[ops[0]].level);
+            rep.count("variant_cells", &cell);
+            if !(same_ct(oks[0], oks[1]) && same_ct(oks[0], oks[2])) { viol(&o, rep, op.name(), &format!("CKKS|{}", if !same_ct(oks[0], oks[1]) { "inplace_vs_destination" } else { "inplace_vs_new" }), "variants_differ", "results of the three forms are not bit-identical".into(), &spec, &trace); }
+            if let Err(e) = valid_ct(&kit, oks[0]) { viol(&o, rep, op.name(), "CKKS", "invalid_result", format!("independent validity predicate: {}", e), &spec, &trace); }
+            if !oks[0].is_valid_for(&kit.ctx) { viol(&o, rep, op.name(), "CKKS|is_valid_for", "invalid_result", "result is not is_valid_for the context".into(), &spec, &trace); }
+            rep.eval(Some(&cell));
+            let el = m.result(&op, oks[0].clone());
+            if m.within(&el) { m.pool.push(el); }
+        }
+    });
+}
+
+pub fn run(cfg: &Cfg, rep: &mut Report) -> PropMeta {
+    run_cases(cfg, "programs", cfg.n(12000, 200000) as u64, rep, |i, rng, rep| programs(cfg, "programs", i, rng, rep, &[4, 8, 16, 32, 64]));
+    run_cases(cfg, "programs_mid", cfg.n(100, 2000) as u64, rep, |i, rng, rep| programs(cfg, "programs_mid", i, rng, rep, &[128, 256, 1024]));
+    run_cases(cfg, "programs_big", cfg.n(8, 100) as u64, rep, |i, rng, rep| programs(cfg, "programs_big", i, rng, rep, &[4096, 8192]));
+    run_cases(cfg, "refusals", cfg.n(1500, 20000) as u64, rep, |i, rng, rep| refusals(cfg, "refusals", i, rng, rep));
+    PropMeta {
+        id: "C03", level: "exploration",
+        rule: "typed random CKKS programs (negate, add, sub, add_many, multiply, square, add/sub/multiply_plain, relinearize, rescale_to_next, mod_switch_to_next; random API form) over fresh ciphertexts with negative / imaginary / mixed-magnitude slots, scales 2^10..~2^(log q/3) and non-power-of-two scales after rescaling, chains of 2..6 primes of mixed sizes, N=4..64 (mid 128..1024, big 4096/8192); refusal scenarios (levels differ, scales differ by 2^-30 or x2, product scale too large, scale too large for the next level) in all three API forms. distinct = distinct (op, size, level) value cells + refusal cells",
+        assumptions: vec!["worst-case slot error tracked per element (fresh N*B/scale, products E1*M2+E2*M1+E1*E2, key switch N*KS/scale, rescale N*(sum N^j/2+1)/scale') plus the double-precision allowance of the library's decode path (he::ckks_fp_tolerance)".into(),
+            "values asserted only while the worst-case coefficient magnitude stays below q_level/4".into(),
+            "expected scale computed with the same f64 operations (product; quotient by the dropped prime)".into(),
+            "refusal rule mirrored from the documentation: scale fits a level iff floor(log2 scale) < bit count of its modulus; scales agree iff |a-b| < eps*max(a,b,1)".into()],
+        exhaustive: false, floor: 2000,
+    }
+}
